@@ -92,15 +92,39 @@ SchedStep(arg) ==
     /\ h' = Append(h, [act |-> "sched", arg |-> arg, steps |-> steps,
                        val |-> val'])
 
-Next == PStep \/ \E a \in Args : SchedStep(a)
+\* the preconditioner's constants are set from OUTSIDE the scheduler (a
+\* checkpoint restored with load_state_dict after the scheduler was built):
+\* later scheduler steps multiply the CURRENT values
+Restored(p) ==
+    CASE p = "factor_update_steps" -> <<4, 1>>
+      [] p = "inv_update_steps"    -> <<5, 1>>
+      [] p = "damping"             -> <<1, 4>>
+      [] p = "factor_decay"        -> <<1, 4>>
+      [] p = "kl_clip"             -> <<1, 64>>
+      [] p = "lr"                  -> <<1, 2>>
+Restore ==
+    /\ ~Refused /\ Len(h) < MaxDepth
+    /\ ~\E i \in DOMAIN h : h[i].act = "restore"      \* once per behaviour
+    /\ steps' = 7
+    /\ val' = [p \in PSet |-> IF p \in fnparams THEN val[p] ELSE Restored(p)]
+    /\ UNCHANGED <<scheduled, fnparams>>
+    /\ h' = Append(h, [act |-> "restore", arg |-> 0, steps |-> steps',
+                       val |-> val'])
+
+Next == PStep \/ Restore \/ \E a \in Args : SchedStep(a)
 Spec == Init /\ [][Next]_vars
 view == <<steps, val, scheduled, fnparams>>
 
 (* properties *)
 UnscheduledUnchanged ==
-    [][\A p \in PSet \ scheduled : val'[p] = val[p]]_vars
+    [][~Restore => \A p \in PSet \ scheduled : val'[p] = val[p]]_vars
 IntervalsAreInts == \A p \in IntParams : val[p][2] = 1 /\ val[p][1] >= 1
-OnlySchedMoves == [][(steps' = steps + 1) => val' = val]_vars
+OnlySchedMoves == [][(steps' = steps + 1 /\ ~Restore) => val' = val]_vars
+\* a scheduler step after a restore starts from the restored values
+SchedFromCurrent ==
+    [][\A a \in Args : SchedStep(a) =>
+         \A p \in scheduled \ IntParams :
+             val'[p] = Mul(val[p], Factor(p, IF a = -1 THEN steps ELSE a))]_vars
 FnParamsNeverScheduled == ~Refused => scheduled \cap fnparams = {}
 
 (* exponential decay schedule: min(1 - 1/max(k,1), cap) *)
